@@ -72,7 +72,7 @@ def vacuity(agg):
 EXPECTED_PROBES = ("gen_switch", "gen_close", "load_between_next", "direct_parse_between", "unknown_apid_packet",
                    "ambiguous_packet", "dead_sub_packet", "long_packet", "reporting_on", "reporting_off", "skip_bad",
                    "headers_only", "shared_definition_2plus", "socket_source", "file_source", "two_definitions",
-                   "source_fault_eio", "source_fault_rst", "source_fault_stall_timeout")
+                   "source_fault_eio", "source_fault_rst", "source_fault_stall_timeout", "direct_parse_same_raw_object")
 
 _packets = factory.import_library()
 import lxml.etree as _ET  # noqa: E402
@@ -163,7 +163,7 @@ def run(ch, render=False):
         k = ch.weighted([(6, 0), (1, 4), (1, 1)], "k")
         rs = ch.pick((None, 7, 1, 64, 4096), "read_size")
         n_pk = 1 + ch.draw(ch.pick((4, 8, 25), "npk_max"), "n_pk")
-        pkts, cats = [], []
+        pkts, cats, alone_default = [], [], []
         for pi in range(n_pk):
             cat = ch.weighted([(8, "leaf"), (2, "unknown"), (2, "long"), (1, "short"), (1, "ambiguous"), (1, "dead_sub")], "cat")
             sub = ch.draw(1 << 16, "sub")
@@ -210,6 +210,7 @@ def run(ch, render=False):
             if p is not None:
                 pkts.append(p)
                 cats.append(cat)
+                alone_default.append(_res[0])        # what parsing this packet alone gives (default options, reporting on)
                 if cat in ("unknown", "ambiguous", "dead_sub", "long"):
                     w.probe({"unknown": "unknown_apid_packet", "ambiguous": "ambiguous_packet", "dead_sub": "dead_sub_packet",
                              "long": "long_packet"}[cat])
@@ -221,7 +222,8 @@ def run(ch, render=False):
                 inject = ch.weighted([(3, "none"), (1, "eio")], "inject")
             elif srckind == "socket":
                 inject = ch.weighted([(3, "none"), (1, "rst"), (1, "stall_timeout")], "inject")
-        gens.append(dict(di=di, opts=opts, k=k, rs=rs, pkts=pkts, cats=cats, src=srckind, inject=inject))
+        gens.append(dict(di=di, opts=opts, k=k, rs=rs, pkts=pkts, cats=cats, src=srckind, inject=inject,
+                         alone_default=alone_default, raws=None))
     if replaced:
         w.probe("replaced_raising_packet", replaced)
 
@@ -334,15 +336,30 @@ def run(ch, render=False):
                 if act == "direct_parse_between":
                     w.fault("direct_parse_between")
                     w.ev(f"gen{gi}", "direct_parse")
-                    p = g["pkts"][ch.draw(len(g["pkts"]), "dp_which")] if g["pkts"] else None
-                    if p is not None:
+                    if g["pkts"]:
+                        pi = ch.draw(len(g["pkts"]), "dp_which")
+                        # either from plain bytes, or from the RawPacketData object the public framer yields for this
+                        # packet -- the SAME object every time, so a second parse of it must give the same result
+                        if ch.chance(1, 2, "dp_rawobj"):
+                            if g["raws"] is None:
+                                g["raws"] = list(_packets.ccsds_generator(b"".join(g["pkts"])))
+                            raw_in = g["raws"][pi] if pi < len(g["raws"]) else g["pkts"][pi]
+                            w.probe("direct_parse_same_raw_object")
+                        else:
+                            raw_in = g["pkts"][pi]
+                        res = None
                         try:
-                            defs[g["di"]].parse_ccsds_packet(CCSDSPacket(raw_data=p))
-                        except UnrecognizedPacketTypeError:
-                            pass
+                            res = xf.canon_item(defs[g["di"]].parse_ccsds_packet(CCSDSPacket(raw_data=raw_in)))
+                        except UnrecognizedPacketTypeError as e:
+                            res = xf.canon_item(e)
                         except Exception as e:      # noqa: BLE001 -- this packet parsed alone without raising
                             err = ("exception", f"direct parse_ccsds_packet of a packet that parses alone raised "
                                                 f"{type(e).__name__}: {e}", gi)
+                        exp_one = g["alone_default"][pi]
+                        if err is None and len(exp_one) == 1 and res != exp_one[0] and out.violation is None:
+                            out.fail("direct_parse_differs_from_alone",
+                                     f"parse_ccsds_packet on packet {pi} of generator {gi}'s stream (category {g['cats'][pi]}) gives "
+                                     f"{str(res)[:300]} but parsing that packet alone gives {str(exp_one[0])[:300]}")
                     continue
                 if last_g is not None and last_g != gi:
                     switches += 1
